@@ -391,7 +391,7 @@ namespace TAO_PEGTL_NAMESPACE
       template< typename ParseInput >
       [[nodiscard]] static bool match( ParseInput& in ) noexcept( noexcept( in.empty() ) )
       {
-         return parse< signed_rule_new >( in );  // Does not check for any overflow.
+         return parse< signed_rule_new, nothing, normal, apply_mode::nothing, rewind_mode::required >( in );  // Does not check for any overflow.
       }
    };
 
@@ -424,7 +424,7 @@ namespace TAO_PEGTL_NAMESPACE
                 typename... States >
       [[nodiscard]] static auto match( ParseInput& in, States&&... /*unused*/ ) noexcept( noexcept( in.empty() ) ) -> std::enable_if_t< A == apply_mode::nothing, bool >
       {
-         return parse< signed_rule_new >( in );  // Does not check for any overflow.
+         return parse< signed_rule_new, nothing, normal, apply_mode::nothing, rewind_mode::required >( in );  // Does not check for any overflow.
       }
 
       template< apply_mode A,
